@@ -9,7 +9,7 @@ _d = os.environ.get("VERIF_COV_DIR")
 if _d and hasattr(sys, "monitoring"):
     import atexit
     import json
-    _root = os.path.realpath(os.environ.get("VERIF_REPO", "/repo")) + "/skepticoin/"
+    _root = os.path.realpath((os.environ.get("VERIF_REPO") or "/repo")) + "/skepticoin/"
     _seen = set()
     _mon = sys.monitoring
     _TOOL = 3
